@@ -11,7 +11,7 @@ import asyncio
 import random
 
 
-class Hang(Exception):
+class Hang(BaseException):
     """The event loop is idle forever: nothing is ready, no gate is waiting."""
 
 
